@@ -293,6 +293,8 @@ func main() {
 	duplex(r, rnd)
 	queued(r, rnd)
 	failingSources(r, rnd)
+	parallelSessions(r, rnd)
+	r.Floor("parallel_session_messages+violations", int(r.Counter("parallel_session_messages"))+30000*r.ViolationCount(), 30000)
 	r.Floor("encrypt_calls_with_a_failing_source", int(r.Counter("encrypt_calls_with_a_failing_source")), 500)
 	r.Floor("healthy_messages_after_failures", int(r.Counter("healthy_messages_after_failures")), 500)
 	r.Floor("queued_messages", int(r.Counter("queued_messages")), 1000)
@@ -734,4 +736,71 @@ func failingSources(r *vf.Run, rnd *rand.Rand) {
 			}
 		}
 	}
+}
+
+// parallelSessions: many INDEPENDENT sessions (one per controller connection of a busy accessory) encrypt and decrypt at
+// the same time in one process.  Sessions share nothing a correct implementation lets them disturb (scratch buffers,
+// pools): every message of every session must be framed exactly as the reference frames it at that session's counter,
+// and the peer end must recover it.
+func parallelSessions(r *vf.Run, rnd *rand.Rand) {
+	const sessions = 24
+	per := r.Pick(1500, 20000)
+	var wg sync.WaitGroup
+	var mu sync.Mutex
+	reported := false
+	base := rnd.Int63()
+	for g := 0; g < sessions; g++ {
+		wg.Add(1)
+		go func(g int) {
+			defer wg.Done()
+			lr := rand.New(rand.NewSource(base + int64(g)*7919))
+			var secret [32]byte
+			lr.Read(secret[:])
+			acc, err1 := crypto.NewSecureSessionFromSharedKey(secret)
+			ctl, err2 := crypto.NewSecureClientSessionFromSharedKey(secret)
+			if err1 != nil || err2 != nil {
+				return
+			}
+			_, a2c := refctl.SessionKeys(secret[:])
+			ref := &refctl.Framer{Key: a2c}
+			for i := 0; i < per; i++ {
+				n := 1 + lr.Intn(300)
+				switch lr.Intn(8) {
+				case 0:
+					n = 1024
+				case 1:
+					n = 1025 + lr.Intn(3000)
+				}
+				payload := make([]byte, n)
+				lr.Read(payload)
+				rd, err := acc.Encrypt(bytes.NewReader(payload))
+				var wire []byte
+				if rd != nil {
+					wire, _ = ioutil.ReadAll(rd)
+				}
+				want := ref.SealFrames(payload, nil)
+				ok := err == nil && bytes.Equal(wire, want)
+				if ok {
+					dr, derr := ctl.Decrypt(bytes.NewReader(wire))
+					var got []byte
+					if dr != nil {
+						got, _ = ioutil.ReadAll(dr)
+					}
+					ok = derr == nil && bytes.Equal(got, payload)
+				}
+				r.Count("parallel_session_messages", 1)
+				if !ok {
+					mu.Lock()
+					if !reported {
+						reported = true
+						r.Violation("parallel-sessions:wire-mismatch", fmt.Sprintf("session %d of %d independent sessions used at the same time: message %d (%d bytes) is not framed as the reference frames it / does not decrypt at the peer end (err=%v, %d wire bytes, reference %d)", g, sessions, i, n, err, len(wire), len(want)),
+							map[string]interface{}{"session": g, "message": i, "payload_len": n, "secret": vf.Hex(secret[:])})
+					}
+					mu.Unlock()
+					return
+				}
+			}
+		}(g)
+	}
+	wg.Wait()
 }
